@@ -13,3 +13,4 @@ import LP.Props.C20Heap
 #print axioms LP.Heap.siftDown_perm
 #print axioms LP.Heap.C20_heap_push_perm
 #print axioms LP.Heap.C20_heap_pop_perm
+#print axioms LP.Heap.C20_heap_remove_perm
